@@ -415,10 +415,12 @@ extern "C" void __tsan_on_report(void* rep)
       {
          int tid = 0, size = 0, write = 0, atomic = 0;
          void* addr = nullptr;
-         void* trace[8] = {0, 0, 0, 0, 0, 0, 0, 0};
-         __tsan_get_report_mop(rep, (unsigned long)k, &tid, &addr, &size, &write, &atomic, trace, 8);
-         // innermost frame with a symbol
-         for(int t = 0; t < 8 && trace[t]; ++t)
+         void* trace[16] = {0, 0, 0, 0, 0, 0, 0, 0, 0, 0, 0, 0, 0, 0, 0, 0};
+         __tsan_get_report_mop(rep, (unsigned long)k, &tid, &addr, &size, &write, &atomic, trace, 16);
+         // innermost frame that lies in library code (an access made by a libc routine called from the library - sprintf, memcpy - belongs to the library);
+         // if there is none, the innermost frame with a symbol
+         std::string innermost, inlib;
+         for(int t = 0; t < 16 && trace[t]; ++t)
          {
             Dl_info di;
             if(dladdr(trace[t], &di) && di.dli_sname)
@@ -429,10 +431,11 @@ extern "C" void __tsan_on_report(void* rep)
                free(dem);
                size_t par = fn.find('(');
                if(par != std::string::npos) fn = fn.substr(0, par);
-               where += std::string(where.empty() ? "" : " vs ") + (write ? "write:" : "read:") + fn;
-               break;
+               if(innermost.empty()) innermost = fn;
+               if(fn.find("soplex::") != std::string::npos || fn.find("boost::") != std::string::npos) { inlib = fn; break; }
             }
          }
+         if(!inlib.empty() || !innermost.empty()) where += std::string(where.empty() ? "" : " vs ") + (write ? "write:" : "read:") + (inlib.empty() ? innermost : inlib);
       }
       snprintf(g_tsanFirst, sizeof g_tsanFirst, "%s:%s", desc ? desc : "?", where.c_str());
    }
